@@ -158,7 +158,8 @@ CODE_BODIES = [" return nil, nil ", "\n\treturn x, nil\n", " if a { b() } else {
                " // comment with }\n return nil, nil ", " /* { */ return nil, nil /* } */ ", " r := '{'; _ = r; return `}`, nil ",
                " m := map[string]struct{}{}; _ = m; return nil, nil ", "", " return \"a\\\"}b\", nil ",
                " return \"}\\n\", nil ", " s := \"{\\t\\x41\"; return s + \"\\u00e9}\", nil ", " return \"\\\\\", nil // }\n",
-               "\r\n\tx := 1\r\n\treturn x, nil\r\n", " return `a\r\nb`, nil ", "\t// tab\tcomment\r\n return nil, nil "]      # carriage returns inside a block are part of its text
+               "\r\n\tx := 1\r\n\treturn x, nil\r\n", " return `a\r\nb`, nil ", "\t// tab\tcomment\r\n return nil, nil ",      # carriage returns inside a block are part of its text
+               "\n\t//{ a comment that starts like the recovery operator\n\treturn nil, nil\n", " //{e} }{\n return 1, nil ", " x := 1 //{\n return x, nil "]
 
 
 def render_code(o, t):
